@@ -31,7 +31,10 @@ class CsvReader(Filter[Iterable[str], Iterable[MutableSequence]]):
 
         #only line terminators are removed: leading and trailing white space belongs to the first and last field
         lines = iter(csv.reader(iter(filter(None,(i.rstrip('\r\n') for i in items))), **self._dialect))
-        first = next(lines)
+        try:
+            first = next(lines)
+        except StopIteration:
+            return iter([]) #there is no data at all
 
         if self._has_header:
             return HeadRows(first).filter(lines)
